@@ -2,7 +2,7 @@ SPECIFICATION Spec
 CONSTANTS
   VCodec = "avc"
   ACodec = "aac"
-  MaxPub = 5
+  MaxPub = 6
   MaxVer = 2
   VKinds <- AvcCore
   DtPool <- Dt2
